@@ -182,6 +182,63 @@ fn c09_target(w: &mut World, cfg: &RunCfg, ops: &[Op], i: usize) -> Res {
             }
         }
     }
+    // --- crash, restart, redo: the restarted user submits the same document again and commits. The
+    // crash state must be a good state to continue from (orphan packs included): the redo succeeds,
+    // shows the submitted document, and a reopened replica agrees with the live one
+    if is_commit {
+        let doc0 = fork(cfg, &ops[..i]).and_then(|wx| wx.replicas[r].model_doc.clone());
+        if let Some(doc) = doc0 {
+            for (k, snap) in snaps.iter().enumerate().take(nwrites) {
+                let mut wc = match fork(cfg, &ops[..i]) {
+                    Some(x) => x,
+                    None => break,
+                };
+                clear(&mut wc);
+                wc.replicas[r].disk.with(|d| d.map = snap.clone());
+                w.bump("enum.crash_redo");
+                let tag = format!("op #{} (commit) crash at write boundary {}/{}, restart, same document submitted again, commit", i + 1, k, nwrites);
+                let steps: [Op; 3] = [Op::Restart { r }, Op::Update { r, doc: doc.clone(), twice: false }, op.clone()];
+                let mut failed = None;
+                for (si, o) in steps.iter().enumerate() {
+                    if let Err(e) = wc.exec(o) {
+                        failed = Some((o.name(), e));
+                        break;
+                    }
+                    if si == 1 {
+                        // right after the update (the restart may have brought in concurrent work that was
+                        // on disk but not yet refreshed: only without an array in conflict is the read exact)
+                        let d1 = wc.digest_of(r)?;
+                        let arr_conf = d1["in_conflict"].as_array().map_or(false, |a| a.iter().any(|u| u.as_str().map_or(false, |s| s.starts_with('^'))));
+                        if !arr_conf {
+                            if let Some(rd) = d1["doc"].get("ok") {
+                                if let Err(e) = crate::docgen::same_modulo_ids(&doc, rd) {
+                                    viol!(w, "crash-redo", "crash-redo-read-differs", "{}: the document read after the update differs from the one submitted: {}", tag, e);
+                                }
+                            }
+                        }
+                    }
+                }
+                if let Some((name, e)) = failed {
+                    let txt = match e {
+                        Stop::Violation(v) => v.detail,
+                        Stop::Inconclusive(t) => t,
+                    };
+                    viol!(w, "crash-redo", format!("crash-redo-failed:{}", name), "{}: {} does not succeed: {}", tag, name, txt);
+                }
+                let live = wc.digest_of(r)?;
+                let held = api::block_status(wc.replicas[r].live.as_ref().unwrap()).values().any(|s| s != "applied");
+                if !held {
+                    let again = match open_on(&wc.replicas[r].disk.items(), 5) {
+                        Ok(Ok(m)) => digest(&m).ok(),
+                        _ => None,
+                    };
+                    if again.as_ref() != Some(&live) {
+                        viol!(w, "crash-redo", "crash-redo-reopen-differs", "{}: a replica reopened afterwards differs from the live one: {}", tag, again.as_ref().map(|a| diff_digest(&live, a)).unwrap_or_else(|| "open failed".into()));
+                    }
+                }
+            }
+        }
+    }
     // --- write failures: every position, single and repeated, and a full disk
     let modes: Vec<(usize, u32, bool)> = (1..=nwrites).flat_map(|j| [(j, 1u32, false), (j, 2, false), (j, 3, false)]).chain(std::iter::once((1, 0, true))).collect();
     for (j, rep, full) in modes {
